@@ -66,6 +66,7 @@ pub fn string_cfg(id: &str) -> GenCfg {
         idents: vec![],
         sync_only: false,
         dup_names: false,
+        mixed_case_overlap: false,
     };
     match id {
         // a prefix is a print-side feature; the parser must ignore it (inputs include prefix + spelling)
@@ -306,6 +307,8 @@ fn plan_inner(id: &str, tier: &str, seed: u64, round: u64) -> Plan {
             let mut specs: Vec<EnumSpec> = (0..n)
                 .map(|i| {
                     let mut c = cfg.clone();
+                    // (the phf map tries exact keys before any folded comparison: no deliberate overlap there)
+                    c.mixed_case_overlap = i % 4 != 1;
                     // a quarter of the programs are field-less Clone enums parsed through the phf map
                     if i % 4 == 1 {
                         c.allow_fields = false;
